@@ -38,8 +38,10 @@ func runC02(c *Ctx) {
 	ruleR02_5(c)
 	ruleR02_2(c)
 	ruleR02_1(c)
-	ruleR02_6(c)
+	ruleRouteAuthenticatorsBuilt(c, "R02.6")
 	ruleRoutableAPIDelegates(c, "R02.2", "Authorizer", "AuthenticatorsFor")
+	ruleBearerCallbackGetsScopes(c, "R02.6")
+	ruleAuthorizeErrorsVerbatim(c, "R02.5")
 	// every route carries the registered authorizer — whatever its security requirements look like (an operation that
 	// also admits anonymous callers still has its authenticated principals authorized)
 	{
@@ -677,15 +679,15 @@ func ruleR02_1(c *Ctx) {
 }
 
 // R02.6 — structure from the spec.
-func ruleR02_6(c *Ctx) {
+func ruleRouteAuthenticatorsBuilt(c *Ctx, rid string) {
 	p := c.P
 	f := p.Fn("(*rt/middleware.defaultRouteBuilder).buildAuthenticators")
-	alts, ok := requirementAlternatives(c, "R02.6")
+	alts, ok := requirementAlternatives(c, rid)
 	if !ok {
 		return
 	}
 	outer := sliceLoops(f, vIs(alts))
-	c.obRF("R02.6", f, "outer-loop", len(outer) == 1, "one pass over the requirement alternatives", fmt.Sprintf("%d loops", len(outer)))
+	c.obRF(rid, f, "outer-loop", len(outer) == 1, "one pass over the requirement alternatives", fmt.Sprintf("%d loops", len(outer)))
 	if len(outer) != 1 {
 		return
 	}
@@ -699,7 +701,7 @@ func ruleR02_6(c *Ctx) {
 		}
 	}
 	okOuter := outer[0].everyIteration(isAppendOf("[]rt/middleware.RouteAuthenticator"))
-	c.obI("R02.6", outer[0].Elem, "one-group-per-alternative", okOuter, "every requirement alternative yields one RouteAuthenticator (none is skipped)", "an alternative can be skipped")
+	c.obI(rid, outer[0].Elem, "one-group-per-alternative", okOuter, "every requirement alternative yields one RouteAuthenticator (none is skipped)", "an alternative can be skipped")
 	// inner loop over the alternative's schemes
 	reqs := outer[0].Elem
 	isReqs := vOrigins(func(o Origin) bool {
@@ -707,47 +709,73 @@ func ruleR02_6(c *Ctx) {
 		return ok && ad == ssa.Value(reqs)
 	})
 	inner := sliceLoops(f, isReqs)
-	c.obRF("R02.6", f, "inner-loop", len(inner) == 1, "one pass over the schemes of each alternative", fmt.Sprintf("%d loops", len(inner)))
+	c.obRF(rid, f, "inner-loop", len(inner) == 1, "one pass over the schemes of each alternative", fmt.Sprintf("%d loops", len(inner)))
 	if len(inner) == 1 {
 		okS := inner[0].everyIteration(isAppendOf("[]string"))
-		c.obI("R02.6", inner[0].Elem, "every-scheme-listed", okS, "every scheme of an alternative is added to Schemes", "a scheme can be skipped")
+		c.obI(rid, inner[0].Elem, "every-scheme-listed", okS, "every scheme of an alternative is added to Schemes", "a scheme can be skipped")
 		okM := inner[0].everyIteration(func(in ssa.Instruction) bool {
 			mu, ok := in.(*ssa.MapUpdate)
 			return ok && typeStr(mu.Map.Type()) == "map[string][]string"
 		})
-		c.obI("R02.6", inner[0].Elem, "every-scheme-scoped", okM, "every scheme's required scopes are recorded", "a scheme's scopes can be skipped")
+		c.obI(rid, inner[0].Elem, "every-scheme-scoped", okM, "every scheme's required scopes are recorded", "a scheme's scopes can be skipped")
 	}
 	// allowAnonymous
 	for _, st := range fieldStores(f, routeAuthT, "allowAnonymous") {
 		ok := true
 		why := ""
-		var cmp *ssa.BinOp
-		for _, o := range originsOf(st.Val) {
-			if b, isB := constBool(o.V); isB {
-				if b {
-					ok, why = false, "allowAnonymous can be the constant true"
+		nameEmpty := factEqString(vFieldLoadO("github.com/go-openapi/analysis.SecurityRequirement", "Name"), "", true)
+		lenIsOne := factEqInt(func(v ssa.Value) bool {
+			call := asCall(v)
+			return call != nil && calleeName(&call.Call) == "builtin len" && isReqs(call.Call.Args[0])
+		}, 1, true)
+		nCmp := 0
+		// the value is `len(reqs) == 1 && reqs[0].Name == ""` — as an expression, or as a flag set on those tests: the
+		// comparison itself is evaluated only behind len == 1; a constant true is merged in only behind BOTH tests, a
+		// constant false only behind the failure of one of them
+		var walk func(v ssa.Value, pred, blk *ssa.BasicBlock, d int)
+		walk = func(v ssa.Value, pred, blk *ssa.BasicBlock, d int) {
+			if phi, isPhi := v.(*ssa.Phi); isPhi && d < 4 {
+				for k, e := range phi.Edges {
+					walk(e, phi.Block().Preds[k], phi.Block(), d+1)
 				}
-				continue
+				return
 			}
-			bo, isBo := o.V.(*ssa.BinOp)
-			if !isBo || !factEqString(vFieldLoadO("github.com/go-openapi/analysis.SecurityRequirement", "Name"), "", true)(bo, true) {
-				ok, why = false, "allowAnonymous is not `len(reqs) == 1 && reqs[0].Name == \"\"`: "+describe(o.V)
-				continue
+			if b, isB := constBool(v); isB {
+				switch {
+				case pred == nil:
+					if b {
+						ok, why = false, "allowAnonymous can be the constant true"
+					} else {
+						ok, why = false, "allowAnonymous never tests the requirement name"
+					}
+				case b:
+					if !(edgeGuarded(pred, blk, nil, lenIsOne) && edgeGuarded(pred, blk, nil, nameEmpty)) {
+						ok, why = false, "allowAnonymous can be the constant true without both tests (exactly one requirement, with an empty name) having succeeded"
+					} else {
+						nCmp++
+					}
+				default:
+					if !edgeGuarded(pred, blk, nil, anyFact(negate(lenIsOne), negate(nameEmpty))) {
+						ok, why = false, "allowAnonymous can be false although neither test failed"
+					}
+				}
+				return
 			}
-			cmp = bo
-		}
-		if ok && cmp != nil {
-			lenIsOne := factEqInt(func(v ssa.Value) bool {
-				call := asCall(v)
-				return call != nil && calleeName(&call.Call) == "builtin len" && isReqs(call.Call.Args[0])
-			}, 1, true)
-			if !guardedBy(cmp, nil, lenIsOne) {
+			bo, isBo := v.(*ssa.BinOp)
+			if !isBo || !nameEmpty(bo, true) {
+				ok, why = false, "allowAnonymous is not `len(reqs) == 1 && reqs[0].Name == \"\"`: "+describe(v)
+				return
+			}
+			nCmp++
+			if !guardedBy(bo, nil, lenIsOne) {
 				ok, why = false, "the empty-name test is not restricted to alternatives with exactly one requirement"
 			}
-		} else if ok {
+		}
+		walk(st.Val, nil, nil, 0)
+		if ok && nCmp == 0 {
 			ok, why = false, "allowAnonymous never tests the requirement name"
 		}
-		c.obI("R02.6", st, "anonymous-detection", ok, "an alternative is anonymous exactly when it consists of the single empty requirement", why)
+		c.obI(rid, st, "anonymous-detection", ok, "an alternative is anonymous exactly when it consists of the single empty requirement", why)
 	}
 	// authenticators of the group come from the API for the definitions of these very requirements
 	for _, st := range fieldStores(f, routeAuthT, "Authenticator") {
@@ -758,9 +786,9 @@ func ruleR02_6(c *Ctx) {
 			}))
 			return okk
 		}))
-		c.obI("R02.6", st, "authenticators-for-requirements", ok, "the group's authenticators are the API's authenticators for the security definitions of this alternative", "value "+describe(st.Val))
+		c.obI(rid, st, "authenticators-for-requirements", ok, "the group's authenticators are the API's authenticators for the security definitions of this alternative", "value "+describe(st.Val))
 	}
-	c.min("R02.6", 7)
+	c.min(rid, 7)
 }
 
 // phiEdgeAfterCall: incoming edge #i of phi carries the phi's own previous value although the block it comes from is
